@@ -1,6 +1,24 @@
 package harness
 
+import (
+	"os"
+
+	"gitee.com/xuesongtao/protoc-go-valid/valid"
+)
+
 // registerGlobals registers the process-wide custom rules some checks use.
 // It runs before any validation call (C11: registration happens-before the
 // goroutines start).
-func registerGlobals() {}
+func registerGlobals() {
+	for _, n := range []string{"gcustom1", "gcustom2", "shadowed"} {
+		valid.SetCustomerValidFn(n, customFn("global", n))
+		globalFnNames[n] = true
+	}
+	// one global function shadows a built-in, only in the processes of the
+	// properties that are about name resolution (nobody else uses "dir" there)
+	switch os.Getenv("VERIF_PROP") {
+	case "C16":
+		valid.SetCustomerValidFn("dir", customFn("global", "dir"))
+		globalFnNames["dir"] = true
+	}
+}
